@@ -28,7 +28,14 @@ def other_axis(axis):
     return 'observation' if axis == 'sample' else 'sample'
 
 
+_NATLEX = [2, 10, 1, 21, 3, 100, 11, 20, 9, 30, 12, 200]
+
+
 def pool_ids(kind, axis):
+    if kind == 'natlex':
+        # ids whose natural order (x2 < x10) and lexicographic order ('x10' < 'x2') differ
+        return ['%s%d' % ('o' if axis == 'observation' else 'x', _NATLEX[k % len(_NATLEX)] + 1000 * (k // len(_NATLEX)))
+                for k in range(POOL)]
     return rt.make_ids(kind, axis, POOL)
 
 
